@@ -57,7 +57,7 @@ import signal
 import sys
 import warnings
 
-sys.path.insert(0, "/verif")
+sys.path.insert(0, __import__("os").path.dirname(__import__("os").path.dirname(__import__("os").path.dirname(__import__("os").path.abspath(__file__)))))
 
 from harness import timeouts as T  # noqa: E402
 
